@@ -402,6 +402,7 @@ pub fn run(sc: &SchedScenario) -> Vec<(Backend, RunResult)> {
         with_scheduler: true,
         sample_rate: 48000,
         self_init_0: false,
+        with_sampler: false,
     };
     let mut results = vec![];
     for &backend in &sc.backends {
@@ -627,7 +628,7 @@ pub fn gen_c11(seed: u64) -> SchedScenario {
     // a task far beyond the horizon (never fires within the run; it sits in the queue all along)
     if r.chance(1, 8) {
         let t = r.below(n_tasks as u64) as usize;
-        initials.push((t, *r.pick(&[1.0e9, 4294967296.0, 1.0e12, 9.0e15])));
+        initials.push((t, *r.pick(&[1.0e9, 4294967296.0, 1.0e12, 9.0e15, 9.3e18, 1.0e19, 1.8e19])));
     }
     // insertion order relative to due time: increasing, decreasing or shuffled
     match r.below(3) {
